@@ -12,6 +12,14 @@ iteration first, left alternative first).  When the cut counter is 0 the engine'
 exactly the reference's: same pattern index, leftmost start, the first parse's end and group spans;
 an empty subject is never matched (regexec tries no start position on it).
 When the counter is not 0 only soundness is demanded: the reported spans are one of the parses.
+Sequences (the matcher must be a function of (pattern set, flags, line); regex.c keeps the file-scope flag re_bad
+between calls, threaded explicitly in coq/ReStateDefs.v, theorems C10_rset_make_seq_pure / C10_session_is_pure):
+sessions of rset_make / regcomp / rset_find calls inside ONE probe process -- malformed patterns of every rejection
+class followed by valid ones, valid after valid, sets of several patterns after a rejected set, matches with an
+earlier slot after later compilations -- every answer compared with the same call in a fresh process, with the
+threaded model and (valid patterns) judged by the reference matcher; the same through `vi -s -e` (:s, :g and
+/pat/ addresses with rejected patterns followed by valid ones; final buffer = that of the script without the
+rejected commands = the one predicted from the model).
 thorough: additionally all pattern strings up to 4 tokens over a metacharacter alphabet against all
 lines up to 3 characters over {a b _ space e-acute} (model vs implementation on all, reference on the
 parse tree printed by the model).
@@ -174,6 +182,176 @@ def gen_cases(ctx, res):
     return out
 
 
+def gen_valid_set(rng, g, npat=None):
+    """one grammatical pattern set with lines built around a sample of it (as in gen_cases)"""
+    npat = npat or rng.choice([1, 1, 1, 2, 3])
+    for _try in range(50):
+        trees, pats = [], []
+        for _ in range(npat):
+            for attempt in range(20):
+                t = g.top(rng.choice([1, 2, 2, 3]))
+                if not relib.nullable_loop(t) and est_count(t) < 300 and tree_size(t) < 40:
+                    break
+            else:
+                t = ('atom', 'chr', b'a', 1, 1)
+            trees.append(t)
+            pats.append(relib.render(t))
+        wt = relib.wrap_set(trees)
+        if any(relib.nullable_loop(t) for t in wt) or any(p == b'' for p in pats):
+            continue
+        nsub = min(9, 1 + max(relib.count_groups(t) for t in trees))
+        flg = 1 if rng.below(4) == 0 else 0
+        cases = []
+        for _ in range(rng.choice([1, 2, 2, 3])):
+            s = relib.gen_line(rng, pats)[:6] + sample(rng, rng.choice(trees)) + relib.gen_line(rng, pats)[:6]
+            if any(relib.nested_loops(t) for t in trees):
+                s = s[:14]
+            if not relib.valid_utf8(s):
+                s = s.decode('utf-8', 'ignore').encode()
+            s = s.replace(b'\n', b'') + (b'\n' if rng.below(3) else b'')
+            cases.append((rng.choice([0, 0, 0, 2, 4, 6]), s))
+        return {'flg': flg, 'nsub': nsub, 'pats': pats, 'cases': cases, 'trees': wt, 'kind': 'session'}
+    return None
+
+
+def gen_sessions(ctx):
+    """sequences of compilations and matches for ONE process.  -> list of (ops, units) where units =
+    [(index of the M op, [indices of its F ops], valid-set dict)] for the reference matcher"""
+    rng = ctx.rng.fork('C10-seq')
+    g = relib.Gen(rng)
+    nsess = 700 if ctx.quick else 6000
+    out = []
+    texts = []
+    while len(out) < nsess:
+        ops, units = [], []
+        nslot = [0]
+
+        def add_valid(v, defer=False):
+            mi = len(ops)
+            ops.append(('M', v['flg'], list(v['pats'])))
+            sl = nslot[0]
+            nslot[0] += 1
+            fs = [('F', sl, v['nsub'], cf, cl) for cf, cl in v['cases']]
+            u = [mi, [], v, fs if defer else []]
+            if not defer:
+                for f in fs:
+                    u[1].append(len(ops))
+                    ops.append(f)
+            units.append(u)
+            return sl
+
+        def add_bad(multi=False):
+            p = relib.gen_bad_pattern(rng, texts[-30:])
+            ps = [p]
+            if multi:
+                w = gen_valid_set(rng, g, rng.choice([1, 2]))
+                ps = list(w['pats']) if w else []
+                ps.insert(rng.below(len(ps) + 1), p)
+                if rng.below(4) == 0:
+                    ps.insert(rng.below(len(ps) + 1), None)
+            ops.append(('M', rng.below(2), ps))
+            nslot[0] += 1
+            return p
+
+        shape = rng.below(8)
+        vs = [gen_valid_set(rng, g) for _ in range(3)]
+        if any(v is None for v in vs):
+            continue
+        texts.extend(p for v in vs for p in v['pats'])
+        if shape <= 1:                       # rejected pattern(s), then valid ones
+            for _ in range(rng.choice([1, 1, 2, 3])):
+                add_bad()
+            for v in vs[:rng.choice([1, 2])]:
+                add_valid(v)
+        elif shape == 2:                     # valid, rejected, the same valid set again, matches with the first slot afterwards
+            add_valid(vs[0], defer=True)
+            add_bad()
+            add_valid(vs[0])
+        elif shape == 3:                     # valid after valid
+            for v in vs[:rng.choice([2, 3])]:
+                add_valid(v, defer=rng.below(3) == 0)
+        elif shape == 4:                     # a rejected SET of several patterns, then a valid set of several patterns
+            add_bad(multi=True)
+            w = gen_valid_set(rng, g, rng.choice([2, 3]))
+            if w is None:
+                continue
+            add_valid(w)
+            add_valid(vs[0])
+        elif shape == 5:                     # bare regcomp calls in between (stag.c)
+            p = relib.gen_bad_pattern(rng, texts[-30:])
+            if not p.endswith(b'\\'):
+                ops.append(('G', p))
+            add_valid(vs[0])
+            if not vs[1]['pats'][0].endswith(b'\\'):
+                ops.append(('G', vs[1]['pats'][0]))
+            add_bad()
+            if not vs[2]['pats'][0].endswith(b'\\'):
+                ops.append(('G', vs[2]['pats'][0]))
+            add_valid(vs[1])
+        elif shape == 6:                     # a match request with a rejected slot, alternating rejected / valid
+            add_bad()
+            ops.append(('F', 0, 2, 0, vs[0]['cases'][0][1]))
+            add_valid(vs[0])
+            add_bad()
+            add_valid(vs[1])
+            add_bad(multi=True)
+            add_valid(vs[2])
+        else:                                # the members of c11's must-reject corpus, each followed by a valid set
+            from props import c11
+            ps = rng.choice(c11.MUST_REJECT)
+            ops.append(('M', 0, list(ps)))
+            nslot[0] += 1
+            add_valid(vs[0])
+            ps = rng.choice(c11.MUST_REJECT)
+            ops.append(('M', 0, list(ps)))
+            nslot[0] += 1
+            add_valid(vs[1])
+        # deferred matches: after everything else was compiled
+        for u in units:
+            for f in u[3]:
+                u[1].append(len(ops))
+                ops.append(f)
+        out.append((ops, [(u[0], u[1], u[2]) for u in units]))
+    return out
+
+
+def gen_ex_scripts(ctx):
+    """ex scripts: commands with rejected patterns followed by commands with valid ones"""
+    rng = ctx.rng.fork('C10-ex')
+    g = relib.Gen(rng)
+    n = 160 if ctx.quick else 1500
+    out = []
+    texts = []
+    while len(out) < n:
+        vs = [gen_valid_set(rng, g, 1) for _ in range(3)]
+        if any(v is None for v in vs):
+            continue
+        texts.extend(v['pats'][0] for v in vs)
+        lines = []
+        for v in vs:
+            for cf, cl in v['cases']:
+                l = cl.replace(b'\n', b'')
+                lines.append(l + b'\n')
+        lines = lines[:6]
+        while len(lines) < 3:
+            lines.append(relib.gen_line(rng, texts[-3:]).replace(b'\n', b'') + b'\n')
+        if rng.below(2):
+            lines.append(b'foo aab bar\n')
+        cmds = []
+        for v in vs[:rng.choice([1, 2, 3])]:
+            for _ in range(rng.choice([1, 1, 2])):
+                bp = relib.gen_bad_pattern(rng, texts[-30:])
+                cmds.append(rng.choice([('s', 1 + rng.below(len(lines)), bp), ('g', bp), ('a', 1 + rng.below(len(lines) - 1), bp)]))
+            p = v['pats'][0]
+            k = rng.below(4)
+            cmds.append(('s', 1 + rng.below(len(lines)), p) if k < 2 else (('g', p) if k == 2 else ('a', 1 + rng.below(len(lines) - 1), p)))
+        cmds = [c for c in cmds if relib.ex_cmd_bytes(c) is not None]
+        if not cmds:
+            continue
+        out.append({'ic': vs[0]['flg'], 'lines': lines, 'cmds': cmds})
+    return out
+
+
 def corpus_cases():
     out = []
     for f in sorted(glob.glob(os.path.join(vlib.VERIF, 'corpus', 'C10-*.json'))):
@@ -248,16 +426,68 @@ def exhaustive_requests(ctx):
     return out
 
 
+def run_sequences(ctx, res, probe, model, env, sessions=None, ex_scripts=None):
+    """the matcher as a function of its arguments: sequences of calls in one process and in one editor session"""
+    if sessions is None:
+        sessions = gen_sessions(ctx)
+    got = relib.check_sessions(res, [('probe', probe)], model, [ops for ops, _ in sessions], env=env)
+    res.extra['sessions'] = len(sessions)
+    # the reference matcher on the answers given inside the sessions (valid sets only)
+    nj = 0
+    nrej = 0
+    for (ops, units), ans in zip(sessions, got or []):
+        if ans is None:
+            continue
+        for (mi, fis, v) in units:
+            a = ans[mi]
+            if a.startswith('rej'):
+                nrej += 1
+                if nrej > 3:
+                    continue
+                res.violation({'what': 'a pattern (set) of the accepted grammar is rejected when it is compiled after other patterns in the same process '
+                                       '(every match of it is missed)', 'input': [relib.q_inp(ops[:mi + 1])], 'observed': a, 'expected': 'compiles'})
+                continue
+            if not a.startswith('ok') or not fis:
+                continue
+            e = dict(v, cases=[(ops[i][3], ops[i][4]) for i in fis], kind=None)
+            d = parse_answer(a + ' | ' + ' | '.join(ans[i] for i in fis))
+            bad, st = judge((e, d))
+            nj += st['ref']
+            for (k, what, exp) in bad[:2]:
+                res.violation({'what': 'in a sequence of compilations in one process: ' + what, 'input': [relib.q_inp(ops[:fis[k] + 1])],
+                               'expected': exp, 'observed': ans[fis[k]]})
+            for c in d['cases']:
+                if c['kind'] == 'set' and c['set'] is not None and c['set'] >= 0:
+                    res.nontriv('Q/' + relib.q_op(ops[mi]) + '/' + c['raw'])
+    res.extra['session_answers_judged_by_reference'] = nj
+    # the same through the editor
+    vi = vlib.build_vi(asan=False)
+    if ex_scripts is None:
+        scripts = gen_ex_scripts(ctx)
+    else:
+        scripts = []      # replay of an ex script: re-run it literally
+        for r in ex_scripts:
+            out = vlib.run_ex(vi, vlib.unhx(r['ex_script']), files={'f': vlib.unhx(r['file'])}, args=['f'], readback=['f'], timeout=30)
+            res.evaluations += 1
+            res.sample({'replayed_ex_script': r.get('script_text'), 'buffer': (out.files.get('f') or b'').decode('utf-8', 'replace')})
+    if scripts:
+        relib.check_ex_sequences(res, vi, probe, model, scripts, env=env)
+
+
 def run(ctx):
     res = ctx.res
     probe = vlib.build_probe('re', includes=['regex'])
     model = ctx.model('re')
     res.rule = ('one evaluation = one (pattern set, line, flags) triple answered by the implementation, compared with the model and judged by the reference matcher; '
                 'non-trivial = a match is reported or the depth limit cut a branch; distinct = distinct (patterns, line, flags)')
+    sessions, ex_scripts = None, None
     if ctx.replay:
         rp = json.load(open(ctx.replay))
+        rin = rp.get('input', [])
         items = [{'flg': r['flg'], 'nsub': r['nsub'], 'pats': [vlib.unhx(p) for p in r['pats']], 'cases': [(c[0], vlib.unhx(c[1])) for c in r['cases']],
-                  'trees': None, 'kind': 'replay'} for r in rp.get('input', [])]
+                  'trees': None, 'kind': 'replay'} for r in rin if 'pats' in r]
+        sessions = [(relib.q_parse_line(r['session']), []) for r in rin if 'session' in r]
+        ex_scripts = [r for r in rin if 'ex_script' in r]
     else:
         items = corpus_cases() + gen_cases(ctx, res)
         if not ctx.quick:
@@ -371,5 +601,6 @@ def run(ctx):
         res.violation({'what': what, 'input': [inp(e, k)], 'expected': exp, 'observed': parsed[j]['cases'][k]['raw'],
                        'replay_note': 'python3 tools/check.py C10 --replay <this file>'})
     res.extra['reference_stats'] = stats
+    run_sequences(ctx, res, probe, model, env, sessions, ex_scripts)
     for j in range(0, len(items), max(1, len(items) // 5)):
         res.sample({'request': inp(items[j]), 'answer': (pans[j] or '')[:200]})
